@@ -6,6 +6,7 @@ package c11
 
 import (
 	"fmt"
+	"github.com/whatap/golib/util/dateutil"
 	"reflect"
 	"sort"
 	"strings"
@@ -574,6 +575,24 @@ func Run(c *evid.Ctx) {
 			}
 		}
 	}
+	// The timed get measures its timeout on one clock: a server-time correction installed in the
+	// date utilities (SetDelta / SetServerTime move Now(), not the local clock) must not shorten or
+	// stretch it. The bounded configurations again, shallower, under two corrections.
+	for _, delta := range []int64{-10000, 10000} {
+		dateutil.SetDelta(delta)
+		for _, double := range []bool{false, true} {
+			r := seqx.BFS(seqSys(double, 1, 1, 5))
+			c.Count("states", int64(r.States))
+			c.Count("transitions", int64(r.Transitions))
+			c.Count("sequential_configurations", 1)
+			for _, v := range r.Viols {
+				last := v.Labels[len(v.Labels)-1]
+				key := fmt.Sprintf("C11:sequential:double=%v:%s", double, strings.SplitN(last, "(", 2)[0])
+				c.Violation(key, fmt.Sprintf("double=%v capacity=[1 1] with the server-time correction SetDelta(%d) installed, after %v: %s", double, delta, v.Labels, v.What), map[string]interface{}{"engine": "E2", "history": v.Labels, "what": v.What, "delta": delta})
+			}
+		}
+	}
+	dateutil.SetDelta(0)
 	vtime.ClearVirtual()
 	shard.Spawn(c, 16, true)
 	c.Cov["traces_validated_against_impl"] = c.Counter("transitions")
